@@ -17,7 +17,7 @@
    locked deposits and pool creations (monitors mon_C04 / mon_C01x on the implementation).
    Statements only. *)
 From MD.Model Require Import Base Ownable Epoch PoolMath Types PoolManager FarmManager Chain.
-From MD.Proofs Require Import PoolMathProofs BankProofs SwapProofs ChainProofs PmProofs LiquidityProofs PoolCustody PoolCustodyChain NonVacuity SingleSided TxBalances TxExcess PmChainProofs ExcessLedger.
+From MD.Proofs Require Import PoolMathProofs BankProofs SwapProofs ChainProofs PmProofs LiquidityProofs PoolCustody PoolCustodyChain NonVacuity SingleSided TxBalances TxExcess PmChainProofs LockedExcess ExcessLedger.
 
 Theorem C01_backed_in_every_reachable_world : forall g w0 ops,
   genesis_world g = Ok w0 -> 0 <= amount_of (fm_create_fee (g_fm g)) ->
@@ -163,8 +163,20 @@ Theorem C01_excess_through_a_donation : forall w from amount b',
   forall d, slackP (set_bank w b') d = slackP w d + camt amount d.
 Proof. exact donation_excess. Qed.
 
+(* a deposit of two or more assets whose LP is LOCKED in the farm manager (the pool manager mints the LP to itself and
+   forwards it with a position message - a nested contract call): the excess is unchanged in every denom, except that a pool's
+   first deposit adds the minimum liquidity in the LP denom *)
+Theorem C01_excess_through_a_locked_deposit : forall w sender funds ls ss r pid dur l w' d0 d1 rest,
+  sender <> PM -> pm_farm_manager (pm_cfg (w_pm w)) = FM ->
+  aggregate_coins funds = Ok (d0 :: d1 :: rest) ->
+  run_tx w sender PM (WPm (PmProvide ls ss r pid (Some dur) l)) funds = Ok w' ->
+  exists p minliq,
+    pool_find (w_pm w) pid = Ok p /\ 0 <= minliq /\
+    forall d, slackP w' d = slackP w d + ind (String.eqb (p_lp p) d) minliq.
+Proof. exact locked_provide_tx_excess. Qed.
+
 (* THE EXCESS CLAUSE OVER HISTORIES of the core pool operations (any number of swaps, routes, withdrawals, unlocked deposits
-   of one or several assets, plain bank sends, block changes, injected faults, rejected operations, in any order, by any
+   of one or several assets, locked deposits of two or more assets, plain bank sends, block changes, injected faults, rejected operations, in any order, by any
    users): for every denom that is not an LP denom, the excess after the history is EXACTLY the initial excess plus the
    ledger — and every ledger entry (ExcessLedger.gift) is either the amount of a plain bank send to the contract or the one
    indivisible unit of an accepted odd single-asset deposit, zero for every other operation. (good_run: every operation
@@ -201,3 +213,4 @@ Print Assumptions C01_excess_through_a_route.
 Print Assumptions C01_excess_is_exactly_donations_plus_odd_units.
 Print Assumptions C01_ledger_entries_are_never_negative.
 Print Assumptions C01_ledger_example.
+Print Assumptions C01_excess_through_a_locked_deposit.
